@@ -38,6 +38,9 @@ def op(rng, modelled):
             items.append(rng.choice([Z(rng.randrange(0, 50)), L(Z(3), I("INTEGER.DUP")), B(False), N(rng.choice(NAMES)), N(rng.choice(NAMES)), L(N(rng.choice(NAMES))),
                                      L(*[Z(i % 5) for i in range(rng.choice([99, 100, 101, 200]))])]))
         return items
+    if k < 0.43:                     # define with NOTHING on the typed stack: the name is consumed, an existing binding of it stays
+        T = rng.choice([t for t in TYPES if t + ".DEFINE" in modelled and t not in ("EXEC", "CODE")])
+        return [I(T + ".FLUSH")] * (1 if T + ".FLUSH" in modelled else 0) + [I("NAME.QUOTE"), N(n), I(T + ".DEFINE"), N(n)]
     if k < 0.46:                     # a bare NAME.QUOTE / a bare DEFINE that takes whatever name waits on the NAME stack
         T = rng.choice([t for t in TYPES if t + ".DEFINE" in modelled and t != "EXEC"])
         return rng.choice([[I("NAME.QUOTE")], value(rng, T) + [I(T + ".DEFINE")], [I("NAME.QUOTE")] + value(rng, T) + [I(T + ".DEFINE")]])
